@@ -164,6 +164,22 @@ def _private_tmp():
     tempfile.tempdir = path
 
 
+def _replays(module, j, r):
+    """fail-fast helper: does at least one counterexample of this refuted job reproduce concretely?"""
+    try:
+        if j.kind == "ch":
+            cexs = [parse_counterexample(m["message"]) for m in r.get("messages", [])]
+            cexs = [(c, j.fn) for c in cexs if c is not None]
+        else:
+            cexs = [({"args": c["args"], "kwargs": {}}, c.get("replay_fn") or j.fn) for c in r.get("counterexamples", [])]
+        for c, fn in cexs:
+            if replay_concrete(module, fn, j.part, c["args"], c.get("kwargs", {})).get("reproduced"):
+                return True
+    except Exception:  # noqa: BLE001
+        return True
+    return False
+
+
 def main():
     ap = argparse.ArgumentParser()
     ap.add_argument("prop")
@@ -225,8 +241,8 @@ def main():
                 continue
             j, twin = futs[fut]
             (twins if twin else results)[j.key] = fut.result()
-            if args.fail_fast and not twin and not stop and results[j.key].get("status") in ("REFUTED", "SAT"):
-                # used by the seeded-change self test: the first refuted job is enough, skip what has not started yet
+            if args.fail_fast and not twin and not stop and results[j.key].get("status") in ("REFUTED", "SAT") and _replays(module, j, results[j.key]):
+                # used by the seeded-change self test: the first refuted job WHOSE COUNTEREXAMPLE REPLAYS is enough, skip what has not started yet
                 stop = True
                 _ABORT.set()
                 for other in futs:
